@@ -291,6 +291,18 @@ type ReuseCtx struct {
 	n                                         uint64
 	salt                                      uint64
 	reusedPL, reusedPI, reusedDict, reusedDVR int
+	// bitmaps handed to ReplaceActual (they stay the caller's) and what they held at that time
+	handed, handedCopy []*roaring.Bitmap
+}
+
+// handedIntact: none of the bitmaps handed to ReplaceActual was changed by later lookups.
+func (r *ReuseCtx) handedIntact() bool {
+	for i := range r.handed {
+		if !r.handed[i].Equals(r.handedCopy[i]) {
+			return false
+		}
+	}
+	return true
 }
 
 func newReuse(on bool, salt uint64) *ReuseCtx {
@@ -446,6 +458,12 @@ func (w *World) exec(q Query, rc *ReuseCtx) string {
 			}
 			out = append(out, fmt.Sprintf("%s=%d", hx([]byte(e.Term())), e.Count()))
 		}
+		// a dictionary of our own (not one kept for reuse) is closed when we are done with it, as a
+		// careful caller does: closing it must not disturb anybody else's dictionary of that field
+		if rc == nil || !rc.on {
+			_ = it.Close()
+			_ = d.Close()
+		}
 		return strings.Join(out, " ")
 	case "contains":
 		field, _ := unhx(q[2])
@@ -457,6 +475,9 @@ func (w *World) exec(q Query, rc *ReuseCtx) string {
 		ok, err := d.Contains(term)
 		if err != nil {
 			return "err"
+		}
+		if rc == nil || !rc.on {
+			_ = d.Close()
 		}
 		return b2s(ok)
 	case "iter", "iterR":
@@ -514,7 +535,12 @@ func (w *World) exec(q Query, rc *ReuseCtx) string {
 				if _, onehit := o.DocNum1Hit(); !onehit {
 					if abm := o.ActualBitmap(); abm != nil {
 						// the replacement must be a subset of the list's postings
-						o.ReplaceActual(roaring.And(repl, abm))
+						mine := roaring.And(repl, abm)
+						o.ReplaceActual(mine)
+						if rc != nil {
+							rc.handed = append(rc.handed, mine)
+							rc.handedCopy = append(rc.handedCopy, mine.Clone())
+						}
 					}
 				}
 			}
@@ -571,6 +597,9 @@ func (w *World) exec(q Query, rc *ReuseCtx) string {
 		}
 		if except != nil && !sameU32(except.ToArray(), parseU32List(q[4])) {
 			return "except-mutated"
+		}
+		if rc != nil && !rc.handedIntact() {
+			return "replace-actual-bitmap-mutated"
 		}
 		if q[0] == "iter" {
 			out = append(out, fmt.Sprintf("cnt=%d", cnt))
